@@ -890,10 +890,40 @@ func (env *SpecEnv) call(n SCall) TV {
 				}
 			}
 		}
-		if last < 0 || k >= len(st.callRes[last].Args) || st.callRes[last].ArgT == nil {
-			panic(noSuchCall{fmt.Sprintf("lastarg(%q, %d): no such call on this path", lit.V, k)})
+		if last >= 0 && k < len(st.callRes[last].Args) && st.callRes[last].ArgT != nil {
+			return TV{st.callRes[last].Args[k], st.callRes[last].ArgT[k]}
 		}
-		return TV{st.callRes[last].Args[k], st.callRes[last].ArgT[k]}
+		// no such call on this path (or it may lie in an iteration that is not on it): an unknown value of the argument's
+		// type, taken from the call sites of the function under verification - so a clause guarded by a call count is
+		// decided by its guard; a function that has no such call site at all fails the clause
+		var at types.Type
+		if e.fn != nil {
+			for _, b := range e.fn.Blocks {
+				for _, ins := range b.Instrs {
+					ci, ok := ins.(ssa.CallInstruction)
+					if !ok || at != nil || !strings.Contains(callLogName(ci.Common()), lit.V) {
+						continue
+					}
+					cc := ci.Common()
+					var ts []types.Type
+					if cc.IsInvoke() {
+						ts = append(ts, cc.Value.Type())
+					} else if cc.Signature().Recv() != nil {
+						ts = append(ts, cc.Signature().Recv().Type())
+					}
+					for i := 0; i < cc.Signature().Params().Len(); i++ {
+						ts = append(ts, cc.Signature().Params().At(i).Type())
+					}
+					if k < len(ts) {
+						at = ts[k]
+					}
+				}
+			}
+		}
+		if at == nil {
+			panic(noSuchCall{fmt.Sprintf("lastarg(%q, %d): the function under verification has no such call", lit.V, k)})
+		}
+		return TV{e.symbolic(st, at, "lastarg"), at}
 	case "ncalls", "icalls", "callseq", "lastresult":
 		// The call log of the function under verification (its own call sites, in path order).
 		//   ncalls("substr")     how many calls to callees whose name contains substr happened so far
